@@ -1575,6 +1575,11 @@ class ClassicChannel(utils.EventEmitter):
         )
         self._abort_connection_result()
         self._change_state(self.State.CLOSED)
+        if self.disconnection_result:
+            # Disconnection collision: our own request will not be answered
+            if not self.disconnection_result.done():
+                self.disconnection_result.set_result(None)
+            self.disconnection_result = None
         self.emit(self.EVENT_CLOSE)
         self.manager.on_channel_closed(self)
 
